@@ -393,17 +393,26 @@ def property_failures(sc, impl, contents):
         # reversibility: backup; install; restore from an installed version
         if cmds[i:i + 2] == [("backup",), ("install",)] and cmds[i + 2:i + 3] and cmds[i + 2] in RESTORES:
             before = four(pre)
-            if all(before):
-                after = states[i + 3]
-                rs = impl["steps"][i + 2]
+            after = states[i + 3]
+            rs = impl["steps"][i + 2]
+            rfl = (sc.get("faults") or [])[i + 2] if i + 2 < len(sc.get("faults") or []) else []
+            if agent_runs(before[0], contents):
+                # every system file that was there is reinstated (all four from an installed version)
+                diff = [p for p, x, y in zip(P_SYS, before, four(after)) if x is not None and x != y]
+                if diff:
+                    why.append("steps %d-%d backup; install; restore did not reinstate %s" % (i, i + 2, diff))
+                if not any(c[0][:1] == ["start"] for c in rs["calls"]) and all(before):
+                    why.append("steps %d-%d restore did not start the service again" % (i, i + 2))
+                if all(before) and not after["running"] and not any(f != 0 for f in rfl[:len(rs["calls"])]):
+                    why.append("steps %d-%d backup; install; restore left the service stopped" % (i, i + 2))
+            elif all(before):
                 # known finding C17-K1: the installed agent does not answer --version and restore
                 # panicked (exit 101) right after `systemctl stop`
-                k1 = (not agent_runs(before[0], contents)) and rs["rc"] == 101 and [c[0][0] for c in rs["calls"]] == ["stop"]
+                k1 = rs["rc"] == 101 and [c[0][0] for c in rs["calls"]] == ["stop"]
                 tag = " [C17-K1]" if k1 else ""
                 if four(after) != before:
                     diff = [p for p, x, y in zip(P_SYS, before, four(after)) if x != y]
                     why.append("steps %d-%d backup; install; restore did not reinstate %s%s" % (i, i + 2, diff, tag))
-                rfl = (sc.get("faults") or [])[i + 2] if i + 2 < len(sc.get("faults") or []) else []
                 if not after["running"] and not any(f != 0 for f in rfl[:len(rs["calls"])]):
                     why.append("steps %d-%d backup; install; restore left the service stopped%s" % (i, i + 2, tag))
                 if not any(c[0][:1] == ["start"] for c in rs["calls"]):
